@@ -149,7 +149,7 @@ def run(case):
     cube, base = build(case)
     shape = tuple(case["shape"])
     items = case["items"]
-    idx = C.to_py_index(items, case.get("bare", False))
+    idx = C.to_py_index(items, case.get("bare", False), C.npint_of(case))
     ref = np.arange(int(np.prod(shape)), dtype=float).reshape(shape)
     tags = [f"ndim={len(shape)}", f"fam={case['fam']}", f"payload={case['payload']}", f"mask={case['mask']}",
             f"with_shape={case['with_shape']}"] + [f"item={C.item_kind(i)}" for i in items]
@@ -366,7 +366,7 @@ def compare_extra(case, r, k, m):
         if o[key] != m[key]:
             return f"second step {key}: implementation {o[key]} vs model {m[key]}"
     cube, base = build(case)
-    inter = cube[C.to_py_index(case["items"], case.get("bare", False))]
+    inter = cube[C.to_py_index(case["items"], case.get("bare", False), C.npint_of(case))]
     ishape = tuple(r["inter_shape"])
     # source indices of the model are relative to the intermediate cube
     _, src_inter = C.decode(C.materialize(inter.data), tuple(case["shape"]))
